@@ -1152,90 +1152,191 @@ def oracle_rbdisp(c):
     return out
 
 
+G0 = 9.80665 / 0.0254
+TAUS = ["g", "g", ["g", "g"], "in", ["m", "in"], ["m", "g"], ["in", "g"]]
+
+
 def net_cases(rng, n):
     cases = []
     tries = 0
     while len(cases) < n and tries < 5 * n:
         tries += 1
         spec = gen_spec(rng)
-        spec.update(variant="valid", reorder=True, rbnorm=None, uref="origin", conv=None)
+        spec.update(variant="valid", reorder=True, rbnorm=None, uref="origin", conv=None, em_filt=0)
         spec["gridperm"] = [int(x) for x in rng.permutation(spec["nbg"])]
         opt = dict(conv=[None, None, "m2e", "e2m", [float(10 ** rng.uniform(-1, 1.5)), float(10 ** rng.uniform(-2, 2))]][int(rng.integers(0, 5))],
                    sub=bool(rng.random() < 0.3 and spec["nbg"] > 1),
                    ref=str(rng.choice(["vec", "id", "origin"])),
                    sccoord=bool(rng.random() < 0.3), seed=[int(x) for x in rng.integers(0, 2 ** 31, 2)])
+        # second extension: the remaining options of the routine
+        opt["reorder"] = bool(rng.random() < 0.35)
+        opt["tau"] = TAUS[int(rng.integers(0, len(TAUS)))]
+        opt["g"] = G0 if rng.random() < 0.6 else float(np.round(10 ** rng.uniform(0, 3), 4))
+        opt["indep"] = [None, None, 123456][int(rng.integers(0, 3))]
+        opt["sc4x3"] = bool(opt["sccoord"] and rng.random() < 0.5)
         cases.append(dict(spec=spec, opt=opt))
     return cases
 
 
 def build_net(c):
-    """inputs of mk_net_drms for a generated structure: the b-set vector in any order, the uset in THAT order"""
+    """inputs of mk_net_drms for a generated structure.  reorder=False: the b-set vector in any order and the uset in THAT
+    order; reorder=True: the uset in ascending matrix position (as cbcheck takes it), bsubset counted in uset rows.
+    `out_*` describe the model the routine works on after its own reordering (b-set first, in the order of `bset`)."""
     spec, opt = c["spec"], c["opt"]
     case = build_case(spec)
     rng = np.random.default_rng(opt["seed"])
     perm = spec["gridperm"]
-    bgr = [case["bgrids"][g] for g in perm]
-    ids = [10 * (i + 1) for i in range(len(perm))]  # a uset table lists its grids by ascending id
-    uset = make_uset(case["st"], bgr, ids)
     nbg = spec["nbg"]
+    reorder = bool(opt.get("reorder"))
+    in_order = list(range(nbg)) if reorder else list(perm)  # uset grid order (indices into case["bgrids"])
+    bgr_in = [case["bgrids"][g] for g in in_order]
+    ids = [10 * (i + 1) for i in range(nbg)]  # a uset table lists its grids by ascending id
+    uset = make_uset(case["st"], bgr_in, ids)
     if opt["sub"]:
-        keepg = np.sort(rng.choice(nbg, int(rng.integers(1, nbg)), replace=False))
-        bsub = np.concatenate([np.arange(6 * g, 6 * g + 6) for g in keepg])
+        keep_in = np.sort(rng.choice(nbg, int(rng.integers(1, nbg)), replace=False))  # positions in the uset
+        bsub = np.concatenate([np.arange(6 * g, 6 * g + 6) for g in keep_in])
     else:
-        keepg, bsub = np.arange(nbg), None
+        keep_in, bsub = np.arange(nbg), None
     if opt["ref"] == "id":
-        gi = int(rng.choice(keepg))  # (a reference grid outside `bsubset` is a KeyError in rbgeom_uset)
-        ref, ref_xyz = ids[gi], case["st"]["xyz"][bgr[gi]]
+        gi = int(rng.choice(keep_in))  # (a reference grid outside `bsubset` is a KeyError in rbgeom_uset)
+        ref, ref_xyz = ids[gi], case["st"]["xyz"][bgr_in[gi]]
     elif opt["ref"] == "vec":
         ref_xyz = rng.uniform(-1, 1, 3) * case["st"]["L"]
         ref = [float(x) for x in ref_xyz]
     else:
         ref, ref_xyz = [0, 0, 0], np.zeros(3)
     sc = rand_rot(rng) if opt["sccoord"] else None
-    return dict(case=case, uset=uset, bset=case["bseto"], bsub=bsub, keepg=keepg, ref=ref, ref_xyz=np.asarray(ref_xyz, float),
-                sccoord=sc, bgr=bgr, ids=ids)
+    sc_arg = sc
+    if sc is not None and opt.get("sc4x3"):
+        # the CORD2R form: the s/c system has the axes A = sc.T (columns, in l/v basic); its origin does not matter
+        A = sc.T
+        O = rng.uniform(-1, 1, 3) * case["st"]["L"]
+        sc_arg = np.vstack([[77, 1, 0], O, O + A[:, 2], O + A[:, 0]])
+    # what the routine works on: grids in the order of `bset` (= perm), interface = the kept ones in that order
+    keep_set = set(int(in_order[g]) for g in keep_in)
+    out_grids = [case["bgrids"][g] for g in perm]
+    out_keep = [k for k, g in enumerate(perm) if g in keep_set]
+    return dict(case=case, uset=uset, bset=case["bseto"], bsub=bsub, keepg=keep_in, ref=ref, ref_xyz=np.asarray(ref_xyz, float),
+                sccoord=sc, sc_arg=sc_arg, bgr=out_grids, out_keep=out_keep, ids=ids, reorder=reorder,
+                out_ids=[ids[in_order.index(g)] for g in perm])
 
 
-def run_net(nb_, conv):
+def net_effective(nb_):
+    """the Craig-Bampton model in the DOF order of the routine's results: with reorder the b-set first (in `bset` order),
+    then the modal DOF ascending; `bset`, `sub` accordingly"""
+    case = nb_["case"]
+    n, nb = case["n"], case["nb"]
+    bset = np.asarray(nb_["bset"])
+    if nb_["reorder"]:
+        pv = np.concatenate([bset, np.setdiff1d(np.arange(n), bset)])
+        M, K, bset2 = case["Min"][np.ix_(pv, pv)], case["Kin"][np.ix_(pv, pv)], np.arange(nb)
+    else:
+        M, K, bset2 = case["Min"], case["Kin"], bset
+    sub = np.concatenate([np.arange(6 * k, 6 * k + 6) for k in nb_["out_keep"]]) if nb_["out_keep"] else np.zeros(0, int)
+    return M, K, bset2, sub
+
+
+def _tau(t):
+    return tuple(t) if isinstance(t, list) else t
+
+
+def run_net(nb_, conv, opt=None):
     from pyyeti import cb
 
     case = nb_["case"]
+    opt = opt or {}
     if isinstance(conv, list):
         conv = tuple(conv)
     with warnings.catch_warnings(record=True) as wl:
         warnings.simplefilter("always")
         # an RBE3 on the translations of two grids cannot see the rotation about the line through them
-        indep = 123456 if len(nb_["keepg"]) == 2 else None
+        indep = 123456 if len(nb_["keepg"]) == 2 else opt.get("indep")
         out = cb.mk_net_drms(case["Min"].copy(), case["Kin"].copy(), nb_["bset"].copy(), bsubset=nb_["bsub"], uset=nb_["uset"],
-                             ref=nb_["ref"], sccoord=nb_["sccoord"], conv=conv, reorder=False, g=9.80665 / 0.0254,
-                             rbe3_indep_dof=indep)
+                             ref=nb_["ref"], sccoord=nb_["sc_arg"], conv=conv, reorder=nb_["reorder"], g=opt.get("g", G0),
+                             tau=_tau(opt.get("tau", "g")), rbe3_indep_dof=indep)
     grounding = any("grounding forces" in str(w.message) for w in wl)
-    return out, grounding
+    replaced = any("no l/v axis lines up" in str(w.message) for w in wl)
+    return out, grounding, replaced
 
 
-def net_request(nb_, conv, mat):
+def net_request(nb_, opt):
     case = nb_["case"]
-    cf = conv_factors(conv)
     n, nb = case["n"], case["nb"]
     sub = nb_["bsub"] if nb_["bsub"] is not None else np.arange(nb)
-    parts = ["netdrm", str(nb), str(len(sub)), str(n), ("1 " + bits(cf)) if cf else "0", ints(nb_["bset"]), ints(sub),
-             bits(nb_["uset"].loc[:, "x":"z"].values), bits(nb_["ref_xyz"]), bits(mat)]
+    tau = opt.get("tau", "g")
+    tau = (tau, tau) if isinstance(tau, str) else tuple(tau)
+    indep = 123456 if len(nb_["keepg"]) == 2 else opt.get("indep")
+    parts = ["netfull", str(nb), str(len(sub)), str(n), conv_code(opt["conv"]), "1" if nb_["reorder"] else "0",
+             ("1 " + bits(nb_["sccoord"])) if nb_["sccoord"] is not None else "0", bits([opt.get("g", G0)]), tau[0], tau[1],
+             str(indep or 0), ints(nb_["bset"]), ints(sub), bits(nb_["uset"].loc[:, "x":"z"].values), bits(nb_["ref_xyz"]),
+             bits(case["Min"]), bits(case["Kin"])]
     return " ".join(parts)
+
+
+NET_FIELDS = (("ifltma_sc", 6, "n"), ("ifltmd_sc", 6, "nb"), ("ifltma_lv", 6, "n"), ("ifltmd_lv", 6, "nb"), ("ifatm_sc", 6, "n"),
+              ("ifatm_lv", 6, "n"), ("cgatm_sc", 6, "n"), ("cgatm_lv", 6, "n"), ("cglfa", 14, "n"), ("cglfd", 14, "nb"))
+
+
+def parse_net_reply(rep, n, nb, nbi):
+    head, _, lab = rep.partition(" # ")
+    t = head.split(" ")
+    sizes = [(nm, r, {"n": n, "nb": nb}[c]) for nm, r, c in NET_FIELDS]
+    nfl = sum(r * c for _, r, c in sizes) + 4 + 3 + 3 + 6 * nbi + 6 * nb + 2
+    if len(t) != nfl + 4:
+        raise Infra("C06 driver: netfull reply has %d tokens, expected %d" % (len(t), nfl + 4))
+    v = unbits(t[:nfl])
+    out, k = {}, 0
+    for nm, r, c in sizes:
+        out[nm] = v[k:k + r * c].reshape(r, c)
+        k += r * c
+    out["weight_sc"], out["height_sc"], out["weight_lv"], out["height_lv"] = v[k:k + 4]
+    k += 4
+    out["cg_sc"], out["cg_lv"] = v[k:k + 3], v[k + 3:k + 6]
+    k += 6
+    out["rb"] = v[k:k + 6 * nbi].reshape(nbi, 6)
+    k += 6 * nbi
+    out["rb_all"] = v[k:k + 6 * nb].reshape(nb, 6)
+    k += 6 * nb
+    out["rbe3_resid"], out["cg_resid"] = v[k:k + 2]
+    ii = [int(x) for x in t[nfl:]]
+    out["scaxial_sc"], out["scaxial_lv"], out["replace"], out["grounding"] = ii[0], ii[1], bool(ii[2]), bool(ii[3])
+    labels = lab.split("|")
+    out["ifltm_labels"], out["ifatm_labels"], out["cglf_labels"] = labels[:12], labels[12:24], labels[24:]
+    return out
+
+
+def _ax_labels(ax, s, kind):
+    """the twelve-label blocks of the mk_net_drms docstring, written out independently: `kind` 'ifltm' or 'ifatm'"""
+    xyz = "XYZ"
+    out = []
+    if kind == "ifltm":
+        for i in range(3):
+            out.append("I/F %s F%s %s" % ("Axial Frc  " if i == ax else "Lateral Frc", xyz[i], s))
+        for i in range(3):
+            out.append("I/F %s M%s %s" % ("Torsion    " if i == ax else "Moment     ", xyz[i], s))
+    else:
+        for i in range(3):
+            out.append("I/F %s   %s %s (g)" % ("Axial  " if i == ax else "Lateral", xyz[i], s))
+        for i in range(3):
+            out.append("I/F %s R%s %s (r/s^2)" % ("Torsion " if i == ax else "Rotation", xyz[i], s))
+    return out
 
 
 def oracle_net(c):
     """mk_net_drms against the generator's ground truth: net force = resultant at the reference point of the boundary
     forces, rigid-body acceleration gives the rigid mass / unit interface acceleration / the cg motion, weight, height,
-    unit conversion keeps the physics"""
+    unit conversion keeps the physics; the cg load factors are the cg accelerations in g and the moment-based ones match
+    the shear-based ones for a force through the cg; labels; every option (reorder, tau, g, sccoord forms)"""
     out = []
     inp = {"kind": "netdrm", "spec": c["spec"], "opt": c["opt"]}
     nb_ = build_net(c)
     case, opt = nb_["case"], c["opt"]
     st = case["st"]
-    tags = [t for t, on in (("conv", opt["conv"] is not None), ("bsubset", opt["sub"]), ("sccoord", opt["sccoord"])) if on]
+    tags = [t for t, on in (("conv", opt["conv"] is not None), ("bsubset", opt["sub"]), ("sccoord", opt["sccoord"]),
+                            ("reorder", opt.get("reorder")), ("tau", opt.get("tau", "g") not in ("g", ["g", "g"]))) if on]
     fam = "mk_net_drms-" + ("-".join(tags) if tags else "plain")
     try:
-        res, grounding = run_net(nb_, opt["conv"])
+        res, grounding, replaced = run_net(nb_, opt["conv"], opt)
     except Exception as e:  # noqa: BLE001
         _fail(out, fam + "-raises-" + type(e).__name__, "mk_net_drms raises on a well-formed model", inp, repr(e)[:200], "a result")
         return out
@@ -1244,25 +1345,27 @@ def oracle_net(c):
         _fail(out, fam + "-grounding-warning", "mk_net_drms warns about grounding forces on a free model with exact geometry", inp,
               "RuntimeWarning", "no warning")
     n, nb = case["n"], case["nb"]
-    bset = np.asarray(nb_["bset"])
-    g0 = 9.80665 / 0.0254
+    M, K, bset, sub = net_effective(nb_)
+    g0 = float(opt.get("g", G0))
+    tau = opt.get("tau", "g")
+    tau = (tau, tau) if isinstance(tau, str) else tuple(tau)
     cf = conv_factors(opt["conv"])
     lc, mc = cf if cf else (1.0, 1.0)
+    # translational rows of ifatm / cgatm: in g, or back in the natural units of the model when tau is not 'g'
+    usc = (1 / g0) if tau[0] == "g" else (1 / lc)
+    ulv = (1 / g0) if tau[1] == "g" else 1.0
     # physical truth in s/c units: boundary rows of T (identity), generator geometry
     RB = np.vstack([(st["G"][6 * g:6 * g + 6, 6 * g:6 * g + 6]).T @ rb6(st["xyz"][g], nb_["ref_xyz"]) for g in nb_["bgr"]])  # nb x 6
-    sub = nb_["bsub"] if nb_["bsub"] is not None else np.arange(nb)
-    M, K = case["Min"], case["Kin"]
+    full = len(sub) == nb
     rng = np.random.default_rng(opt["seed"] + [5])
     acc = rng.standard_normal(n)
     Fb = M[bset[sub]] @ acc  # boundary forces on the interface subset for this acceleration
     want = RB[sub].T @ Fb
-    T6 = np.eye(6)
-    if nb_["sccoord"] is not None:
-        T6 = np.zeros((6, 6))
-        T6[:3, :3] = nb_["sccoord"]
-        T6[3:, 3:] = nb_["sccoord"]
-        T6 = T6  # Tsc2lv = Tlv2sc.T with Tlv2sc = blockdiag(sccoord): lv = sccoord.T @ sc
-        T6 = np.block([[nb_["sccoord"].T, np.zeros((3, 3))], [np.zeros((3, 3)), nb_["sccoord"].T]])
+    T3 = nb_["sccoord"].T if nb_["sccoord"] is not None else np.eye(3)
+    T6 = np.block([[T3, np.zeros((3, 3))], [np.zeros((3, 3)), T3]])  # Tsc2lv = blockdiag(sccoord, sccoord).T
+    if not _close(res.Tsc2lv, T6, 1e-12, 1.0)[0]:
+        _fail(out, fam + "-Tsc2lv", "Tsc2lv is not the transpose of the transform defined by `sccoord` (3x3 or CORD2R form)", inp,
+              np.asarray(res.Tsc2lv).tolist(), T6.tolist())
     fsc = max(np.abs(want).max(), 1e-300)
     # s/c matrix: with conv it takes l/v-unit accelerations (DRM conversion), forces stay in s/c units
     Cd = np.ones(n)
@@ -1279,7 +1382,16 @@ def oracle_net(c):
     if not _close(got, T6 @ (Dn * want), 1e-9, np.abs(Dn * want).max())[0]:
         _fail(out, fam + "-net-force-lv", "ifltma_lv @ a (l/v units and axes) is not the converted, rotated resultant", inp,
               got.tolist(), (T6 @ (Dn * want)).tolist())
-    if nb_["bsub"] is None:
+    if not (np.array_equal(res.ifltma, np.vstack((res.ifltma_sc, res.ifltma_lv))) and np.array_equal(res.ifltmd, np.vstack((res.ifltmd_sc, res.ifltmd_lv)))
+            and np.array_equal(res.ifatm, np.vstack((res.ifatm_sc, res.ifatm_lv)))):
+        _fail(out, fam + "-stacking", "ifltma / ifltmd / ifatm are not the s/c rows followed by the l/v rows", inp, None, None)
+    for nm in ("ifatm", "cgatm"):
+        a_, b_ = getattr(res, nm + "_lv"), T6 @ getattr(res, nm + "_sc")
+        b_[:3] *= ulv / usc
+        if not _close(a_, b_, 1e-9, max(np.abs(b_).max(), 1e-300))[0]:
+            _fail(out, fam + "-lv-rows", "%s_lv is not %s_sc turned by Tsc2lv (translational rows in the units `tau` asks for)" % (nm, nm), inp,
+                  float(np.abs(a_ - b_).max()), 0.0)
+    if full:
         ksc = max(np.abs(K).max(), 1e-300) * max(1.0, np.abs(RB).max())
         if np.abs(res.ifltmd_sc).max() > 1e-8 * ksc or np.abs(res.ifltmd_lv).max() > 1e-8 * ksc * mc * lc * lc * max(1.0, 1 / lc):
             _fail(out, fam + "-ifltmd-nonzero", "displacement-dependent net force of a free model is not zero", inp,
@@ -1294,30 +1406,33 @@ def oracle_net(c):
                   got.tolist(), mass6.tolist())
         a_rb_lv = a_rb / Cd[:, None] / (np.array([lc] * 3 + [1.0] * 3) if cf else 1.0)
         # a_rb_lv: unit rigid accelerations in l/v units (1 length_lv/s^2, 1 rad/s^2) about the converted reference
-        RBlv = a_rb_lv[bset]
         got = res.ifatm_sc @ a_rb_lv
-        wantI = np.diag([1 / g0] * 3 + [1.0] * 3)
+        wantI = np.diag([usc] * 3 + [1.0] * 3)
         if not _close(got, wantI, 1e-8, 1.0)[0]:
-            # F-new: with a single boundary grid the RBE3 columns are written to columns 0..5, whatever `bset` says
+            # F47 (fixed by 75ede6d): with a single boundary grid the RBE3 columns were written to columns 0..5
             single_off = nb == 6 and not np.array_equal(np.sort(bset), np.arange(6))
             _fail(out, "mk_net_drms-ifatm-single-grid-bset-not-leading" if single_off else fam + "-ifatm",
-                  "net interface acceleration of a unit rigid-body acceleration is not the unit (in g)", inp,
-                  got.tolist(), wantI.tolist())
+                  "net interface acceleration of a unit rigid-body acceleration is not the unit (in g, or in the model's own "
+                  "units when tau is not 'g')", inp, got.tolist(), wantI.tolist())
         masses = st["masses"]
         if not c["spec"]["aniso"]:
             cg = (masses[:, None] * st["xyz"]).sum(axis=0) / masses.sum()
             dcg = (cg - nb_["ref_xyz"]) * lc
             if not _close(res.cg_sc, dcg, 1e-8, max(np.abs(dcg).max(), 1e-3 * st["L"] * lc))[0]:
                 _fail(out, fam + "-cg", "cg_sc is not the mass-weighted centroid relative to `ref`", inp, np.asarray(res.cg_sc).tolist(), dcg.tolist())
+            if not _close(res.cg_lv, T3 @ dcg, 1e-8, max(np.abs(dcg).max(), 1e-3 * st["L"] * lc))[0]:
+                _fail(out, fam + "-cg-lv", "cg_lv is not the cg offset in l/v axes", inp, np.asarray(res.cg_lv).tolist(), (T3 @ dcg).tolist())
             wantcg = rb6(dcg, np.zeros(3))
-            wantcg[:3] /= g0
+            wantcg[:3] *= usc
             got = res.cgatm_sc @ a_rb_lv
-            if not _close(got[:3], wantcg[:3], 1e-8, max(1.0 / g0, np.abs(wantcg[:3]).max()))[0]:
+            rot_ok = True
+            if not _close(got[:3], wantcg[:3], 1e-8, max(usc, np.abs(wantcg[:3]).max()))[0]:
                 _fail(out, fam + "-cgatm", "net cg acceleration of a unit rigid-body acceleration is not the motion of the cg", inp,
                       got.tolist(), wantcg.tolist())
             elif not _close(got[3:], wantcg[3:], 1e-8, 1.0)[0]:
-                # F-new: the rigid-body modes "relative to the cg" are formed about the point whose BASIC coordinates are the
-                # cg offset from `ref`; that is the cg only when `ref` is the basic origin
+                rot_ok = False
+                # F46 (open): the rigid-body modes "relative to the cg" are formed about the point whose BASIC coordinates are
+                # the cg offset from `ref`; that is the cg only when `ref` is the basic origin
                 f2 = "mk_net_drms-cgatm-rotation-rows-ref-not-origin" if np.any(nb_["ref_xyz"] != 0) else fam + "-cgatm-rotation"
                 _fail(out, f2, "rotational rows of cgatm_sc applied to a unit rigid-body acceleration are not [0 I]: the moments are "
                       "not taken about the cg", inp, got[3:].tolist(), wantcg[3:].tolist())
@@ -1327,6 +1442,57 @@ def oracle_net(c):
                 _fail(out, fam + "-weight-height", "weight / cg height", inp,
                       [float(res.weight_sc), float(res.height_sc), float(res.weight_lv), float(res.height_lv)],
                       [wl / (mc * lc), hl / lc, wl, hl])
+            # --- axial direction, labels, cg load factors
+            a_sc, a_lv = np.abs(dcg), np.abs(T3 @ dcg)
+            srt_sc, srt_lv = np.sort(a_sc), np.sort(a_lv)
+            decided = srt_sc[2] - srt_sc[1] > 1e-6 * srt_sc[2] and srt_lv[2] - srt_lv[1] > 1e-6 * srt_lv[2]
+            aligned = abs(srt_sc[2] - srt_lv[2]) <= 1e-8 + 1e-5 * srt_lv[2]
+            near_align = abs(abs(srt_sc[2] - srt_lv[2]) - (1e-8 + 1e-5 * srt_lv[2])) <= 1e-3 * (1e-8 + 1e-5 * srt_lv[2])
+            if decided:
+                ax_sc, ax_lv = int(np.argmax(a_sc)), int(np.argmax(a_lv))
+                if (int(res.scaxial_sc), int(res.scaxial_lv)) != (ax_sc, ax_lv):
+                    _fail(out, fam + "-scaxial", "scaxial_sc / scaxial_lv are not the directions of the largest cg offset component", inp,
+                          [int(res.scaxial_sc), int(res.scaxial_lv)], [ax_sc, ax_lv])
+                else:
+                    want_l = _ax_labels(ax_sc, " sc", "ifltm") + _ax_labels(ax_lv, " lv", "ifltm")
+                    if list(res.ifltm_labels) != want_l:
+                        _fail(out, fam + "-labels", "ifltm_labels do not name the axial / lateral / torsion rows", inp, list(res.ifltm_labels), want_l)
+                    want_l = _ax_labels(ax_sc, " sc", "ifatm") + _ax_labels(ax_lv, " lv", "ifatm")
+                    for rows, t_ in ((range(0, 3), tau[0]), (range(6, 9), tau[1])):
+                        if t_ != "g":
+                            for i in rows:
+                                want_l[i] = want_l[i].replace("(g)", "(%s/s^2)" % t_)
+                    if list(res.ifatm_labels) != want_l:
+                        _fail(out, fam + "-labels", "ifatm_labels do not name the rows / the translational units", inp, list(res.ifatm_labels), want_l)
+                    if not near_align:
+                        if replaced != (not aligned) or (("!lv" in res.cglf_labels[5]) != (not aligned)):
+                            _fail(out, fam + "-cglf-replace", "the l/v rows of cglf are replaced (and labelled !lv) exactly when no l/v axis is the s/c axial one",
+                                  inp, {"warning": replaced, "label": res.cglf_labels[5]}, {"replaced": not aligned})
+                        # cg load factors: a force F through the cg (resultant F, moment cg x F about ref).  With the net force rows
+                        # of the routine: rigid TRANSLATION acceleration a (l/v units) gives F = m a at the cg.
+                        at = np.zeros(6)
+                        at[:3] = np.random.default_rng(opt["seed"] + [9]).standard_normal(3)
+                        a_t = a_rb_lv @ at  # rigid translation, l/v-unit components in s/c axes
+                        for tag, axx, lo, Tm in (("sc", ax_sc, 0, np.eye(3)), ("lv", ax_lv, 5, T3)):
+                            if tag == "lv" and not aligned:
+                                continue
+                            lf = res.cglfa[lo:lo + 5] @ a_t
+                            acc3 = Tm @ at[:3] / g0  # cg acceleration in g, in the axes of this block
+                            lat = [i for i in range(3) if i != axx]
+                            # moment-based rows: the lateral force that, applied at the cg HEIGHT on the axial axis, gives the
+                            # moment of the net force about `ref`: F_lat = -(e_ax x M) / h, per unit weight (for a cg on the axis
+                            # these are the shear-based rows - "signs set to match the lateral directions")
+                            d_blk = Tm @ dcg
+                            lfm = -np.cross(np.eye(3)[axx], np.cross(d_blk, acc3)) / d_blk[axx]
+                            want5 = np.array([acc3[axx], acc3[lat[0]], acc3[lat[1]], lfm[lat[0]], lfm[lat[1]]])
+                            if not _close(lf, want5, 1e-7, max(np.abs(want5).max(), 1e-300))[0]:
+                                _fail(out, fam + "-cglf", "cglfa rows (%s) applied to a rigid translation: axial / shear rows are not the cg acceleration in g "
+                                      "or the moment-based rows are not -(e_ax x M)/(W h) in the lateral directions" % tag, inp,
+                                      lf.tolist(), want5.tolist())
+                        if not aligned and not np.array_equal(res.cglfa[5:10], res.cglfa[:5]):
+                            _fail(out, fam + "-cglf-replace", "replaced l/v rows of cglfa are not the s/c rows", inp, None, None)
+                        if np.abs(res.cglfa[10:]).max() != 0 or res.cglfa.shape[0] != 14 or res.cglfd.shape != (14, nb):
+                            _fail(out, fam + "-cglf", "cglfa / cglfd must have 14 rows, the last four blank", inp, list(res.cglfa.shape), [14, n])
     return out
 
 
@@ -1857,7 +2023,7 @@ def correspondence(ctx):
     rd_cases = rbdisp_cases(rng, ctx.pick(150, 1500))
     for c in rd_cases:
         req.append("rbdisp %d %s %s" % (len(c["kinds"]), bits([c["tol"]]), bits(c["rbdisp"])))
-    # --- I: mk_net_drms ------------------------------------------------------------------------------
+    # --- I: mk_net_drms (the whole routine) -----------------------------------------------------------------
     rng = ctx.np_rng(9)
     nt_cases = []
     for c in net_cases(rng, ctx.pick(36, 300)):
@@ -1867,8 +2033,7 @@ def correspondence(ctx):
             continue
         c["nb_"] = nb_
         nt_cases.append(c)
-        req.append(net_request(nb_, c["opt"]["conv"], nb_["case"]["Min"]))
-        req.append(net_request(nb_, c["opt"]["conv"], nb_["case"]["Kin"]))
+        req.append(net_request(nb_, c["opt"]))
     # --- J: rbmultchk ----------------------------------------------------------------------------------
     rng = ctx.np_rng(10)
     rm_cases = rbmult_cases(rng, ctx.pick(80, 800))
@@ -2053,35 +2218,84 @@ def correspondence(ctx):
             ctx.count("rbdisp:warned")
         ctx.case(("rbdisp", rep[k - 1][:60]), nontrivial=bool(np.any(c["d"] != 0)))
     # I
+    worst_k = [0.0, 0.0]
     for c in nt_cases:
         nb_, opt = c["nb_"], c["opt"]
         case = nb_["case"]
         n, nb = case["n"], case["nb"]
-        vm = unbits(rep[k].split(" ")).reshape(2, 6, n)
-        vk = unbits(rep[k + 1].split(" ")).reshape(2, 6, n)
-        k += 2
+        nbi = len(nb_["bsub"]) if nb_["bsub"] is not None else nb
+        mo = parse_net_reply(rep[k], n, nb, nbi)
+        k += 1
         inp = {"spec": c["spec"], "opt": opt}
         ctx.case(("netdrm", json.dumps(inp, sort_keys=True)))
-        for t_, on in (("conv", opt["conv"] is not None), ("bsubset", opt["sub"]), ("sccoord", opt["sccoord"]), ("plain", True)):
+        tau = opt.get("tau", "g")
+        for t_, on in (("conv", opt["conv"] is not None), ("bsubset", opt["sub"]), ("sccoord", opt["sccoord"]), ("plain", True),
+                       ("reorder", nb_["reorder"]), ("sccoord-4x3", opt.get("sc4x3")), ("tau-natural", tau not in ("g", ["g", "g"])),
+                       ("g-other", opt.get("g", G0) != G0), ("indep-123456", opt.get("indep") == 123456 and nbi > 12),
+                       ("single-grid", nbi == 6), ("conv-string", isinstance(opt["conv"], str)),
+                       ("reorder-bsubset", nb_["reorder"] and opt["sub"])):
             if on:
                 ctx.count("netdrm:" + t_)
         try:
-            res, _ = run_net(nb_, opt["conv"])
+            res, grounding, replaced = run_net(nb_, opt["conv"], opt)
         except Exception as e:  # noqa: BLE001
             ctx.disagree("mk_net_drms", inp, "exception %s: %s" % (type(e).__name__, str(e)[:200]), "a result")
             continue
-        T6 = np.eye(6)
-        if nb_["sccoord"] is not None:
-            T6 = np.block([[nb_["sccoord"].T, np.zeros((3, 3))], [np.zeros((3, 3)), nb_["sccoord"].T]])
-        bset = np.asarray(nb_["bset"])
-        cmp("mk_net_drms-ifltma_sc", "ifltma_sc", inp, res.ifltma_sc, vm[0])
-        cmp("mk_net_drms-ifltma_lv", "ifltma_lv", inp, res.ifltma_lv, T6 @ vm[1])
+        worst_k = [max(worst_k[0], mo["rbe3_resid"]), max(worst_k[1], mo["cg_resid"])]
+        if not (mo["rbe3_resid"] <= 1e-9 and mo["cg_resid"] <= 1e-9):
+            ctx.disagree("mk_net_drms-kernel-spec", inp, {"rbe3 normal equations": float(mo["rbe3_resid"]), "Mcg solve": float(mo["cg_resid"])},
+                         "<= 1e-9 relative residual of the model's own kernels")
         ksc = max(np.abs(case["Kin"]).max(), 1e-300) * max(1.0, np.abs(res.rb_all).max())
         cf = conv_factors(opt["conv"])
         lc, mc = cf if cf else (1.0, 1.0)
-        cmp("mk_net_drms-ifltmd_sc", "ifltmd_sc", inp, res.ifltmd_sc, vk[0][:, bset], ksc * max(1.0, 1 / lc))
-        cmp("mk_net_drms-ifltmd_lv", "ifltmd_lv", inp, res.ifltmd_lv, T6 @ vk[1][:, bset], ksc * mc * lc * max(lc, 1.0))
+        dsc = {"ifltmd_sc": ksc * max(1.0, 1 / lc), "ifltmd_lv": ksc * mc * lc * max(lc, 1.0), "cglfd": None}
+        for nm, _, _ in NET_FIELDS:
+            got = getattr(res, nm)
+            sc_ = dsc.get(nm)
+            if nm == "cglfd":
+                # displacement-dependent load factors: moments (round-off of a free model) over weight * height
+                sc_ = dsc["ifltmd_lv"] / max(abs(mo["weight_lv"] * mo["height_lv"]), 1e-300) + \
+                    dsc["ifltmd_sc"] / max(abs(mo["weight_sc"] * mo["height_sc"]), 1e-300)
+            cmp("mk_net_drms-" + nm, nm, inp, got, mo[nm], sc_, 1e-8 if nm.startswith(("ifatm", "cgatm", "cglf")) else None)
+        for nm in ("weight_sc", "height_sc", "weight_lv", "height_lv", "cg_sc", "cg_lv"):
+            cmp("mk_net_drms-" + nm, nm, inp, np.atleast_1d(getattr(res, nm)), np.atleast_1d(mo[nm]),
+                max(np.abs(mo["cg_sc"]).max(), 1e-300) if nm.startswith(("cg", "height")) else None, 1e-8)
+        cmp("mk_net_drms-rb", "rb", inp, res.rb, mo["rb"], max(1.0, np.abs(mo["rb_all"]).max()))
+        cmp("mk_net_drms-rb", "rb_all", inp, res.rb_all, mo["rb_all"], max(1.0, np.abs(mo["rb_all"]).max()))
+        T6 = np.eye(6)
+        if nb_["sccoord"] is not None:
+            T6 = np.block([[nb_["sccoord"].T, np.zeros((3, 3))], [np.zeros((3, 3)), nb_["sccoord"].T]])
+        cmp("mk_net_drms-Tsc2lv", "Tsc2lv", inp, res.Tsc2lv, T6, 1.0, 1e-12)
         cmp("mk_net_drms-stack", "ifltma rows", inp, res.ifltma, np.vstack((res.ifltma_sc, res.ifltma_lv)), None, 1e-15)
+        cmp("mk_net_drms-stack", "ifltmd rows", inp, res.ifltmd, np.vstack((res.ifltmd_sc, res.ifltmd_lv)), ksc, 1e-15)
+        cmp("mk_net_drms-stack", "ifatm rows", inp, res.ifatm, np.vstack((res.ifatm_sc, res.ifatm_lv)), None, 1e-15)
+        # decisions (exact unless the two candidates are within round-off of each other)
+        a_sc, a_lv = np.sort(np.abs(mo["cg_sc"])), np.sort(np.abs(mo["cg_lv"]))
+        tie = a_sc[2] - a_sc[1] <= 1e-9 * a_sc[2] or a_lv[2] - a_lv[1] <= 1e-9 * a_lv[2]
+        thr = 1e-8 + 1e-5 * a_lv[2]
+        edge = abs(abs(a_sc[2] - a_lv[2]) - thr) <= 1e-6 * thr
+        if tie or edge:
+            ctx.skip("mk_net_drms: axial direction / lv-row replacement within round-off of its threshold")
+        else:
+            if (int(res.scaxial_sc), int(res.scaxial_lv)) != (mo["scaxial_sc"], mo["scaxial_lv"]):
+                ctx.disagree("mk_net_drms-scaxial", inp, [int(res.scaxial_sc), int(res.scaxial_lv)], [mo["scaxial_sc"], mo["scaxial_lv"]])
+            if replaced != mo["replace"]:
+                ctx.disagree("mk_net_drms-replace-lv", inp, replaced, mo["replace"])
+            for nm in ("ifltm_labels", "ifatm_labels", "cglf_labels"):
+                if list(getattr(res, nm)) != mo[nm]:
+                    ctx.disagree("mk_net_drms-labels", inp, {nm: list(getattr(res, nm))}, mo[nm])
+            if mo["replace"]:
+                ctx.count("netdrm:lv-rows-replaced")
+            ctx.count("netdrm:axial-%d" % mo["scaxial_sc"])
+        gmargin = np.abs(case["Kin"][np.ix_(nb_["bset"], nb_["bset"])] @ res.rb_all[:, :]).max() if not nb_["reorder"] and cf is None else None
+        if grounding != mo["grounding"]:
+            if gmargin is not None and gmargin > 0 and abs(gmargin / (np.abs(case["Kin"][np.ix_(nb_["bset"], nb_["bset"])]).max() * 1e-8) - 1) < 1e-3:
+                ctx.skip("mk_net_drms: grounding warning on its threshold")
+            elif c["spec"]["nbg"] == 1:
+                ctx.skip("mk_net_drms: grounding test of a single-grid interface compares round-off with round-off")
+            else:
+                ctx.disagree("mk_net_drms-grounding-warning", inp, grounding, mo["grounding"])
+    ctx.extra["worst_net_kernel_residuals"] = worst_k
     # J
     for c in rm_cases:
         got, _ = run_rbmult(c)
@@ -2129,7 +2343,9 @@ def correspondence(ctx):
         "em_filt:positive", "em_filt:rows-dropped", "reorder:False-bset-not-leading",
         "solve_eig-direct:none", "solve_eig-direct:null", "solve_eig-direct:massless", "solve_eig-direct:both",
         "rbdisp:exact", "rbdisp:small", "rbdisp:large", "rbdisp:warned",
-        "netdrm:plain", "netdrm:conv", "netdrm:bsubset", "netdrm:sccoord",
+        "netdrm:plain", "netdrm:conv", "netdrm:bsubset", "netdrm:sccoord", "netdrm:reorder", "netdrm:sccoord-4x3",
+        "netdrm:tau-natural", "netdrm:g-other", "netdrm:single-grid", "netdrm:conv-string", "netdrm:axial-0", "netdrm:axial-1",
+        "netdrm:axial-2",
         "rbmult:first", "rbmult:last", "rbmult:vector", "rbmult:full",
         "cbtf0:bfirst", "cbtf0:blast", "cbtf0:bmixed", "cbtf0:bnoq-permuted",
     ])
